@@ -48,7 +48,7 @@ func c15Gen(g *Gen) {
 	r := g.Rng
 	n := g.N(120, 1500)
 	ids := []string{"anon", tkID(true, "bearer", "alice"), tkID(true, "jwt", "bob")}
-	methods := []string{"exch", "dyne", "exb", "prod", "dynp"}
+	methods := []string{"exch", "dyne", "dyne", "dynn", "exb", "prod", "dynp"}
 	for i := 0; i < n; i++ {
 		T := Pick(r, []int{20, 20, 100, 3600})
 		key := tkKeyOfLen(r, Pick(r, []int{16, 32, 32, 64}))
@@ -65,9 +65,12 @@ func c15Gen(g *Gen) {
 			if !safe(s.curAge) || !safe(s.callAge) || s.refused >= 2 {
 				return
 			}
+			// the input batch is int64 or a castable int32: a dynamic exchange stream casts it to the schema
+			// it declared at /init, which travels in the call token / the cache entry
+			in := Pick(r, []string{"i64", "i32", "i32"})
 			lines = append(lines,
-				fmt.Sprintf("cont ref %s %s cur=$%s call=$%s cancel=0 sess=- out=-", s.id, s.method, s.cur, s.call),
-				fmt.Sprintf("cont %s %s %s cur=$%s call=$%s cancel=0 sess=- out=%s pair=1", inst, s.id, s.method, s.cur, s.call, s.cur))
+				fmt.Sprintf("cont ref %s %s cur=$%s call=$%s cancel=0 sess=- out=- in=%s", s.id, s.method, s.cur, s.call, in),
+				fmt.Sprintf("cont %s %s %s cur=$%s call=$%s cancel=0 sess=- out=%s pair=1 in=%s", inst, s.id, s.method, s.cur, s.call, s.cur, in))
 			if s.curAge <= T-3 && s.callAge <= T-3 {
 				s.curAge = 0
 			} else {
@@ -79,7 +82,7 @@ func c15Gen(g *Gen) {
 			if !safe(s.curAge) || !safe(s.callAge) {
 				return
 			}
-			lines = append(lines, fmt.Sprintf("cont a %s %s cur=$%s call=- cancel=0 sess=- out=-", s.id, s.method, s.cur))
+			lines = append(lines, fmt.Sprintf("cont a %s %s cur=$%s call=- cancel=0 sess=- out=- in=%s", s.id, s.method, s.cur, Pick(r, []string{"i64", "i32"})))
 		}
 		newStream := func() {
 			s := &c15Stream{id: Pick(r, ids), method: Pick(r, methods)}
@@ -121,7 +124,7 @@ func c15Gen(g *Gen) {
 			// hook-minted token pairs with chosen ages (including post-dated: clock skew between instances)
 			for k := 0; k < 3; k++ {
 				id, m := Pick(r, ids), Pick(r, methods)
-				kind := map[bool]string{true: "P", false: "E"}[strings.Contains(m, "p") && !strings.Contains(m, "b")]
+				kind := map[bool]string{true: "P", false: "E"}[m == "prod" || m == "dynp"]
 				if m == "exb" {
 					kind = "B"
 				}
@@ -130,11 +133,11 @@ func c15Gen(g *Gen) {
 				cs, ks := fmt.Sprintf("mc%d", k), fmt.Sprintf("mk%d", k)
 				lines = append(lines,
 					fmt.Sprintf("mint cursor %s a %s age=%d callid=new method=%s skind=%s count=1 limit=50", cs, id, ca, m, kind),
-					fmt.Sprintf("mint call %s a %s age=%d callid=@%s schema=1 streamid=%s", ks, id, ka, cs, XS(fmt.Sprintf("%032x", r.U64()))))
+					fmt.Sprintf("mint call %s a %s age=%d callid=@%s schema=1 streamid=%s insch=%s", ks, id, ka, cs, XS(fmt.Sprintf("%032x", r.U64())), Pick(r, []string{"-", "i64", tkMethodIn(m)})))
 				inst := Pick(r, []string{"a", "b", "c"})
 				lines = append(lines,
-					fmt.Sprintf("cont ref %s %s cur=$%s call=$%s cancel=0 sess=- out=-", id, m, cs, ks),
-					fmt.Sprintf("cont %s %s %s cur=$%s call=$%s cancel=0 sess=- out=- pair=1", inst, id, m, cs, ks),
+					fmt.Sprintf("cont ref %s %s cur=$%s call=$%s cancel=0 sess=- out=- in=i32", id, m, cs, ks),
+					fmt.Sprintf("cont %s %s %s cur=$%s call=$%s cancel=0 sess=- out=- pair=1 in=i32", inst, id, m, cs, ks),
 					fmt.Sprintf("cont ref %s %s cur=$%s call=$%s cancel=0 sess=- out=-", id, m, cs, ks),
 					fmt.Sprintf("cont %s %s %s cur=$%s call=$%s cancel=0 sess=- out=- pair=1", inst, id, m, cs, ks),
 					fmt.Sprintf("cont a %s %s cur=$%s call=- cancel=0 sess=- out=-", id, m, cs))
